@@ -116,7 +116,12 @@ C03_ExecutedMeans(c) ==
 C03_CheckPure(c) ==
   c.mut.check => (c.after = c.before /\ c.ta = c.tb /\ c.qa = c.qb)
 
-C03_Call(c) == C03_CanceledFrozen(c) /\ C03_ExecutedMeans(c) /\ C03_CheckPure(c)
+(* a mutation (or check) on a backing-off machine is Canceled with no effect   *)
+C03_RefusedWhenBackingOff(c) ==
+  c.refused => (c.res = "canceled" /\ c.after = c.before /\ c.ta = c.tb /\ c.qa = c.qb)
+
+C03_Call(c) == /\ C03_CanceledFrozen(c) /\ C03_ExecutedMeans(c) /\ C03_CheckPure(c)
+               /\ C03_RefusedWhenBackingOff(c)
 
 ---------------------------------------------------------------------------
 (* C05 -- handler lifecycle, over the handler log of one transition           *)
